@@ -960,4 +960,248 @@ func cycleAvoiding(fn *ssa.Function, avoid *ssa.BasicBlock) *ssa.BasicBlock {
 	return found
 }
 
-var _ = token.NoPos
+
+
+// ---------------------------------------------------------------------------
+// R-FRESH-VARS (C01): every clause activation gets its own, freshly numbered variable frame.
+
+func ruleFreshVars(c *Ctx, r *Report) {
+	const rule = "R-FRESH-VARS"
+	exec := c.method("VM", "exec")
+	newVar := c.fn("NewVariable")
+	if exec == nil || newVar == nil {
+		r.undecided(rule, "anchor", "-", "locate exec and NewVariable", "not found")
+		return
+	}
+	vidx := -1
+	for i, p := range exec.Params {
+		if sl, ok := p.Type().Underlying().(*types.Slice); ok && isEngNamed(sl.Elem(), "Variable") {
+			vidx = i
+		}
+	}
+	if vidx < 0 {
+		r.undecided(rule, "anchor:exec.vars", c.Pos(exec.Pos()), "locate the variable-frame parameter of exec", "no []Variable parameter")
+		return
+	}
+	n := 0
+	for _, fn := range c.LibFuncs() {
+		if topFunc(fn) == exec {
+			continue
+		}
+		eachInstr(fn, func(in ssa.Instruction) {
+			ci, ok := in.(ssa.CallInstruction)
+			if !ok || ci.Common().StaticCallee() != exec {
+				return
+			}
+			n++
+			key := fmt.Sprintf("%s/exec.vars", fname(fn))
+			desc := "the variable frame handed to a clause body is allocated by the alternative itself (once per activation) and filled with new variables"
+			var ms *ssa.MakeSlice
+			good := true
+			why := ""
+			var leaves []ssa.Value
+			aliases := map[ssa.Value]bool{}
+			var expand func(v ssa.Value)
+			expand = func(v ssa.Value) {
+				for _, l := range c.originSet(v) {
+					aliases[l] = true
+					if sl, ok := l.(*ssa.Slice); ok {
+						expand(sl.X) // re-slicing keeps the backing array
+						continue
+					}
+					leaves = append(leaves, l)
+				}
+			}
+			expand(ci.Common().Args[vidx])
+			for _, l := range leaves {
+				m, ok := l.(*ssa.MakeSlice)
+				if !ok {
+					good, why = false, "frame originates from "+valName(l)+", not from an allocation"
+					continue
+				}
+				if m.Parent() != fn {
+					good, why = false, "frame is allocated in "+fname(m.Parent())+" and shared by every activation that runs this alternative"
+				}
+				ms = m
+			}
+			if good && ms != nil {
+				// the alternative must be a delayed thunk (runs per activation), and every element store is a new variable
+				if fn.Parent() == nil {
+					good, why = false, "frame is allocated when the call is set up, not when the alternative is tried"
+				}
+				stores := 0
+				var refs []ssa.Instruction
+				for al := range aliases {
+					if al.Referrers() != nil {
+						refs = append(refs, *al.Referrers()...)
+					}
+				}
+				// loads of the local variable holding the frame are aliases too
+				eachInstr(fn, func(in2 ssa.Instruction) {
+					if ia, ok := in2.(*ssa.IndexAddr); ok {
+						if ok2, _ := c.comesOnlyFrom(ia.X, func(l ssa.Value) bool { return aliases[l] }); ok2 {
+							refs = append(refs, ia)
+						}
+					}
+				})
+				for _, ref := range refs {
+					ia, ok := ref.(*ssa.IndexAddr)
+					if !ok {
+						continue
+					}
+					for _, r2 := range *ia.Referrers() {
+						st, ok := r2.(*ssa.Store)
+						if !ok {
+							continue
+						}
+						stores++
+						if call, ok := st.Val.(*ssa.Call); !ok || call.Call.StaticCallee() != newVar {
+							good, why = false, "an element of the frame is not a NewVariable() result"
+						}
+					}
+				}
+				if stores == 0 {
+					good, why = false, "the frame is never filled with variables"
+				}
+			}
+			if good {
+				r.ok(rule, key, c.at(ci), desc, "make([]Variable, …) inside the alternative, each element = NewVariable()", true)
+			} else {
+				r.bad(rule, key, c.at(ci), desc, why+": bindings of one activation would be visible in another (recursion, re-entry on backtracking)")
+			}
+		})
+	}
+	r.analysed(rule, fmt.Sprintf("%d entries into exec from outside exec", n))
+}
+
+// ---------------------------------------------------------------------------
+// R-POP-INCLUSIVE (C03): applying a cut pops the choice-point stack down to and including the barrier.
+
+func rulePopInclusive(c *Ctx, r *Report) {
+	const rule = "R-POP-INCLUSIVE"
+	tr := c.trampoline()
+	if tr == nil {
+		r.undecided(rule, "anchor:trampoline", "-", "locate the trampoline", "not found")
+		return
+	}
+	// the function the trampoline calls with the promise's cutParent
+	var popUntil *ssa.Function
+	var site *ssa.Call
+	eachInstr(tr, func(in ssa.Instruction) {
+		call, ok := in.(*ssa.Call)
+		if !ok || call.Call.StaticCallee() == nil {
+			return
+		}
+		for _, a := range call.Call.Args {
+			if _, ok := loadsField(a, "Promise", "cutParent"); ok {
+				popUntil, site = call.Call.StaticCallee(), call
+			}
+		}
+	})
+	if popUntil == nil {
+		r.bad(rule, fname(tr)+"/apply-cut", c.Pos(tr.Pos()), "the trampoline applies a cut by pruning the stack down to the barrier", "no call taking p.cutParent found in the trampoline")
+		return
+	}
+	// the cut is applied only when a barrier is set, before the child is expanded
+	if boolOrNilFact(c, site.Block(), "Promise", "cutParent", false) {
+		r.ok(rule, fname(tr)+"/apply-cut", c.at(site), "the trampoline applies a cut by pruning the stack down to the barrier", "called with p.cutParent under p.cutParent != nil", true)
+	} else {
+		r.bad(rule, fname(tr)+"/apply-cut", c.at(site), "the trampoline applies a cut by pruning the stack down to the barrier", "not guarded by p.cutParent != nil")
+	}
+	// inside: the only comparison with the barrier is on a popped element, and equality leaves the loop
+	var barrier *ssa.Parameter
+	for _, p := range popUntil.Params {
+		if c.isPromisePtr(p.Type()) {
+			barrier = p
+		}
+	}
+	pop := c.method("promiseStack", "pop")
+	key := fname(popUntil) + "/until"
+	desc := "frames are popped until the popped frame IS the barrier (the barrier's own remaining alternatives go too)"
+	if barrier == nil {
+		r.undecided(rule, key, c.Pos(popUntil.Pos()), desc, "no *Promise parameter")
+		return
+	}
+	found := false
+	eachInstr(popUntil, func(in ssa.Instruction) {
+		bo, ok := in.(*ssa.BinOp)
+		if !ok || (bo.Op != token.EQL && bo.Op != token.NEQ) {
+			return
+		}
+		var other ssa.Value
+		switch {
+		case bo.X == ssa.Value(barrier):
+			other = bo.Y
+		case bo.Y == ssa.Value(barrier):
+			other = bo.X
+		default:
+			return
+		}
+		found = true
+		call, isCall := other.(*ssa.Call)
+		popped := isCall && call.Call.StaticCallee() != nil && (call.Call.StaticCallee() == pop || strings.Contains(call.Call.StaticCallee().Name(), "pop"))
+		// the equal edge must leave the loop (reach a return without another pop)
+		var ifb *ssa.BasicBlock
+		for _, ref := range *bo.Referrers() {
+			if i, ok := ref.(*ssa.If); ok {
+				ifb = i.Block()
+			}
+		}
+		exits := false
+		if ifb != nil {
+			eqSucc := ifb.Succs[0]
+			if bo.Op == token.NEQ {
+				eqSucc = ifb.Succs[1]
+			}
+			// from eqSucc no further pop call is reachable
+			reachesPop := false
+			seen := map[*ssa.BasicBlock]bool{}
+			st := []*ssa.BasicBlock{eqSucc}
+			for len(st) > 0 {
+				b := st[len(st)-1]
+				st = st[:len(st)-1]
+				if seen[b] {
+					continue
+				}
+				seen[b] = true
+				for _, i2 := range b.Instrs {
+					if c2, ok := i2.(*ssa.Call); ok && c2.Call.StaticCallee() != nil && strings.Contains(c2.Call.StaticCallee().Name(), "pop") {
+						reachesPop = true
+					}
+				}
+				st = append(st, b.Succs...)
+			}
+			exits = !reachesPop
+		}
+		switch {
+		case !popped:
+			r.bad(rule, key, c.at(bo), desc, "the barrier is compared with something that was not popped (peek): the barrier frame itself stays on the stack and its remaining clauses are still tried after the cut")
+		case !exits:
+			r.bad(rule, key, c.at(bo), desc, "finding the barrier does not stop the popping: older choice points are removed as well")
+		default:
+			r.ok(rule, key, c.at(bo), desc, "compares pop() with the barrier and stops on equality", true)
+		}
+	})
+	if !found {
+		r.bad(rule, key, c.Pos(popUntil.Pos()), desc, "the barrier parameter is never compared with a frame")
+	}
+	r.analysed(rule, fname(tr), fname(popUntil))
+}
+
+// boolOrNilFact: facts at b contain load(<x>.typ.field) != nil (wantNil=false) or == nil (wantNil=true).
+func boolOrNilFact(c *Ctx, b *ssa.BasicBlock, typ, field string, wantNil bool) bool {
+	for f := range c.factsAt(b) {
+		bo, ok := f.cond.(*ssa.BinOp)
+		if !ok || !isNilConst(bo.Y) {
+			continue
+		}
+		if _, ok := loadsField(bo.X, typ, field); !ok {
+			continue
+		}
+		isNil := (bo.Op == token.EQL) == f.pol
+		if isNil == wantNil {
+			return true
+		}
+	}
+	return false
+}
